@@ -116,7 +116,10 @@ def ref_expect(model: dict[int, dict[int, list[int] | None]], st_: RefState, b: 
     sid = b[0]
     cur = model.get(st_.session, {})
     on = lambda name: f"default_response_if_{name}" not in off  # noqa: E731
-    undecided = False  # a disabled rule would have decided: later rules are then not predicted
+    # The chain is a sequence of independent rules: a disabled rule is skipped and the next enabled one decides ("disabling one
+    # behaviour only removes that rule"). Rules 1-4 are predicted exactly also behind a disabled rule that would have decided;
+    # what the service handlers make of a request that a disabled structural rule let through is not predicted (undecided).
+    undecided = False
     # 1 service not supported
     if sid not in cur:
         if on("service_not_supported"):
@@ -125,11 +128,11 @@ def ref_expect(model: dict[int, dict[int, list[int] | None]], st_: RefState, b: 
         undecided = True
     # 2 missing sub-function
     if sid in SUBFN_SIDS and len(b) < 2:
-        if on("missing_sub_function") and not undecided:
+        if on("missing_sub_function"):
             return {"reply": bytes([0x7F, sid, 0x13]), "rule": "missing-sub-function"}
         undecided = True
     # 3 sub-function not supported
-    if sid in SUBFN_SIDS and sid != 0x31 and len(b) >= 2 and not undecided:
+    if sid in SUBFN_SIDS and sid != 0x31 and len(b) >= 2:
         sf = b[1] & 0x7F
         here = cur.get(sid)
         if here is None or sf not in here:
@@ -139,7 +142,7 @@ def ref_expect(model: dict[int, dict[int, list[int] | None]], st_: RefState, b: 
             undecided = True
     # 4 incorrect format
     wf = ref_request_wellformed(b)
-    if wf is False and not undecided:
+    if wf is False:
         if on("incorrect_format"):
             return {"reply": bytes([0x7F, sid, 0x13]), "rule": "incorrect-format"}
         undecided = True
@@ -224,6 +227,11 @@ op = st.one_of(
     st.tuples(st.just("f186")),
     st.tuples(st.just("tp"), st.booleans()),
     st.tuples(st.just("repeat")),
+    # the tester stays silent for a while (only drivers that own the server's clock act on it; resolve() yields no request):
+    # more than 10 s of silence return the virtual ECU to its default state (the S3 server timer)
+    st.tuples(st.just("idle"), st.sampled_from([3.0, 12.0, 12.0, 60.0])),
+    # macro: requestSeed, silence (optionally kept "alive" by TesterPresent afterwards), then a sendKey for that level
+    st.tuples(st.just("stalekey"), st.integers(0, 50), st.sampled_from([3.0, 12.0, 12.0]), st.booleans()),
 )
 
 
@@ -233,6 +241,8 @@ def expand(o: tuple[Any, ...]) -> list[tuple[Any, ...]]:
         # reset through an offered sub-function, then poll with the same request until the ECU is back (as wait_for_ecu does)
         poll = ("tp", False) if o[2] == 0 else ("f186",) if o[2] == 1 else ("raw", b"\x22\xf1\x90")
         return [("reset_offered", o[1]), poll, poll, poll]
+    if o[0] == "stalekey":
+        return [("seedkey_seed", o[1]), ("idle", o[2])] + ([("tp", False)] if o[3] else []) + [("stalekey_key", o[1])]
     if o[0] == "unlock":
         then = {"dsc_same": ("dsc_same", o[3]), "dsc_offered": ("dsc_offered", o[1], o[3]), "reset": ("reset", o[1], o[3]),
                 "f186": ("f186",)}[o[2]]
@@ -288,6 +298,13 @@ def resolve(o: tuple[Any, ...], model: dict[int, dict[int, list[int] | None]], s
         return bytes([0x3E, 0x80 if o[1] else 0x00])
     if k == "repeat":
         return prev or b"\x3e\x00"
+    if k == "idle":
+        return b""
+    if k == "stalekey_key":
+        if last_seed is not None:
+            return bytes([0x27, last_seed[0] + 1]) + (last_seed[1] or b"\x00")
+        sfs = [x for x in (cur.get(0x27) or []) if x % 2 == 1] or [1]
+        return bytes([0x27, sfs[o[1] % len(sfs)] + 1, 0x01, 0x02])
     raise AssertionError(k)
 
 
@@ -301,9 +318,22 @@ def make_server(seed: int, params: dict[str, Any], off: list[str]) -> Any:
         cfg = RngVirtualECUConfig(target="unix-lines:///tmp/vf-unused.sock", seed=seed, **params, **{k: False for k in off})
         return RngVirtualECU(cfg)._server()
 
-    rp = RandomUDSServer.RandomnessParameters(**params) if params else None
+    if os.environ.get("VF_REUSE_PARAMS") == "1":
+        # one argument object per distinct argument set, shared by all servers of this process (a test bench that starts several
+        # ECUs from one configuration object): an ECU must not depend on what earlier ECUs did with "its" arguments
+        import json as _json
+
+        key = _json.dumps(params, sort_keys=True, default=str)
+        if key not in _RP_CACHE:
+            _RP_CACHE[key] = RandomUDSServer.RandomnessParameters(**params)
+        rp = _RP_CACHE[key]
+    else:
+        rp = RandomUDSServer.RandomnessParameters(**params) if params else None
     beh = UDSServer.Behavior(**{k: False for k in off}) if off else None
     return RandomUDSServer(seed, rp, beh)
+
+
+_RP_CACHE: dict[str, Any] = {}
 
 
 def next_last_seed(last_seed: tuple[int, bytes] | None, b: bytes, r: bytes | None) -> tuple[int, bytes] | None:
@@ -318,6 +348,21 @@ def next_last_seed(last_seed: tuple[int, bytes] | None, b: bytes, r: bytes | Non
     return None
 
 
+_CLOCK = {"offset": 0.0, "installed": False}
+
+
+def _install_clock() -> None:
+    """The server measures inactivity with time.time(): give the module a clock that the driver can move forward."""
+    if _CLOCK["installed"]:
+        return
+    import time as _time
+
+    import gallia.services.uds.server as srv
+
+    srv.time = lambda: _time.time() + _CLOCK["offset"]  # type: ignore[attr-defined]
+    _CLOCK["installed"] = True
+
+
 class Driver:
     """Runs a history against a fresh RandomUDSServer through UDSServerTransport.handle_request on a private loop."""
 
@@ -325,6 +370,7 @@ class Driver:
         from gallia.services.uds.server import UDSServerTransport
         from gallia.transports import TargetURI
 
+        _install_clock()
         self.loop = asyncio.new_event_loop()
         self.server = make_server(seed, params, off)
         self.loop.run_until_complete(self.server.setup())
@@ -341,6 +387,13 @@ class Driver:
         self.prev = b
         self.last_seed = next_last_seed(self.last_seed, b, r)
         return r, None
+
+    def idle(self, seconds: float) -> bool:
+        """Let `seconds` pass without a request. Returns True if that is longer than the server's inactivity limit (10 s)."""
+        _CLOCK["offset"] += seconds
+        if seconds > 10:
+            self.last_seed = None
+        return seconds > 10
 
     def close(self) -> None:
         try:
